@@ -160,26 +160,55 @@ struct Exact {
     size_t size() const { return n; }
 };
 
-// An object living in a heap block of exactly sizeof(T) bytes.
+// An object living in a heap block that ends exactly where the object ends.  With box_shifts() on (a harness opts in at the top
+// of its body; harnesses that free Box::p by hand must not), half of the objects with alignment <= 8 start 8 bytes into their
+// block - an address that is 8 mod 16, where a member behind an `int`, `std::pair<int, ST::string>::second` or a std::map
+// value lives - instead of at the 16-byte aligned address malloc returned; the 8 bytes in front are poisoned under ASan.
+inline bool &box_shifts() { static bool on = false; return on; }
 template <typename T>
 struct Box {
     T *p;
+    void *base = nullptr;      // what to free when the object does not start at the beginning of its block
     template <typename... A>
     explicit Box(A &&...a)
     {
-        void *mem = recycle_pool().take(sizeof(T));
-        if (!mem) mem = malloc(sizeof(T));
+        size_t shift = 0;
+        if (box_shifts() && placement_here() && alignof(T) <= 8 && (placement_next() & 1)) shift = 8;
+        void *mem = recycle_pool().take(sizeof(T) + shift);
+        if (!mem) mem = malloc(sizeof(T) + shift);
         if (!mem) { fprintf(stderr, "vrt: out of memory\n"); _exit(98); }
+        if (shift) {
+            base = mem;
+#ifdef VRT_HAVE_ASAN
+            __asan_poison_memory_region(mem, shift);
+#endif
+            mem = static_cast<char *>(mem) + shift;
+            static uint64_t &c = counter("placement.objects_at_8_mod_16");
+            ++c;
+        }
         try {
             p = new (mem) T(std::forward<A>(a)...);
         } catch (...) {
-            free(mem);
+            release(mem);
             throw;
         }
     }
     Box(const Box &) = delete;
     Box &operator=(const Box &) = delete;
-    ~Box() { if (p) { p->~T(); if (!recycle_pool().park(p, sizeof(T))) free(p); } }
+    void release(void *mem)
+    {
+        if (base) {
+#ifdef VRT_HAVE_ASAN
+            __asan_unpoison_memory_region(base, 8);
+#endif
+            void *b = base;
+            base = nullptr;
+            if (!recycle_pool().park(b, sizeof(T) + 8)) free(b);
+        } else if (!recycle_pool().park(mem, sizeof(T))) {
+            free(mem);
+        }
+    }
+    ~Box() { if (p) { p->~T(); release(p); } }
     T &operator*() { return *p; }
     T *operator->() { return p; }
     const T &operator*() const { return *p; }
